@@ -12,6 +12,7 @@ P = {
  'C06': ("SCRAM/PLAIN/HT/DIGEST-MD5 client messages are assembled as the RFCs prescribe and unproven servers are refused, with hash/HMAC/PBKDF2 as a recording oracle", "crypto primitives are uninterpreted, functionally consistent oracles; SASLprep outside", "4 C06"),
  'C07': ("one step of OutgoingIqManager from an arbitrary request table: a request completes exactly once and only by a result/error with its id from the addressee", "QXmppTask/QXmppPromise replaced by the shadow whose contract C13 establishes; request table as class-level array model", "4 C07"),
  'C09': ("single inductive steps of the real StreamAckManager/C2sStreamManager from an arbitrary valid pre-state, each event kind against a reference transition", "class-level array model of QMap<uint,QXmppPacket>; task shadow; <= 4 (6) pending stanzas", "4 C09"),
+ 'C10': ("single steps (and a few two-event compositions) of the real QXmppOutgoingClient from an arbitrary private state: after a socket disconnect the client is unauthenticated with no session, disconnected is emitted exactly once iff a session existed, requests are completed unless resumable; next-address / redirect branches reconnect without reporting a session; handleStart resets per-stream state; a session is declared open exactly once and only when nothing is left to negotiate", "socket, timers, DNS and TLS configuration are ghost logs; the liveness half (a following attempt succeeds, three consecutive attempts) is outside this technique", "4 C10"),
  'C11': ("handleStanza of both carbon managers on an arbitrary bounded DOM tree: delivery implies outer from == own bare JID and the parsed element is the inner message of the carbon", "QXmppMessage::parse is a recording model; DOM tree model with 22 (40) elements", "4 C11"),
  'C12': ("one step of QXmppRosterManager from an arbitrary small roster: unauthorised pushes change nothing and are not acknowledged; authorised pushes are applied in order and acknowledged once; new sessions start empty", "class-level QMap models, task shadow, client accessors modelled", "4 C12"),
  'C13': ("every schedule of K operations on the REAL QXmppPromise/QXmppTask/TaskPrivate (incl. the libstdc++ shared_ptr/std::function they instantiate): continuation exactly once with the value, never after the context died, no leak / use after free", "QPointer liveness is a ghost flag; K <= 3 quick / 4 thorough", "4 C13"),
